@@ -55,9 +55,9 @@ def spell_arg(rng, v, depth=0):
             return [spell_arg(rng, i, depth + 1) for i in v]
         return v
     if isinstance(v, dict):
-        path_like = any(isinstance(k, str) and k.startswith("path") for k in v)
+        path_like = any(isinstance(k, str) and k.lower().startswith("path") for k in v)
         recurse = depth == 0 and not path_like
-        return {(("\\" + k) if isinstance(k, str) and k.startswith("path") else k):
+        return {(("\\" + k) if isinstance(k, str) and k.lower().startswith("path") else k):
                 (spell_arg(rng, x, depth + 1) if recurse else x) for k, x in v.items()}
     return v
 
@@ -188,7 +188,10 @@ def spell_rule(rng, rr, doc_spec="__none__"):
 
 DOC_SHAPES = [None, "", "  one line \n", ["first\n", " second "], {"description": " d \n"},
               {"description": ["a ", "b\n"], "examples": [" ex1 \n", "ex2"]}, {"examples": ["only ex \n"]}, {},
-              {"description": "has `code` & <b>"}]
+              {"description": "has `code` & <b>"},
+              # every kind of white space at the ends (all of it is stripped), and inside (none of it is)
+              "\ttabbed\t", {"description": ["\r\nwindows line\r\n", "\x0bvt\x0c"], "examples": ["ex\t", "\u00a0nbsp\u2003"]},
+              ["in\tside  kept", " \t "], {"description": "\x1f unit sep \x1c", "examples": []}, "\u00c9t\u00e9 "]
 
 
 # ------------------------------------------------------------------ recorded parses
@@ -342,7 +345,7 @@ def spec_leaf_recipe(rng, kinds=None, path_args=False, doc=None):
     if fn in gen.VALUE1 and rng.random() < 0.06:
         # literal mappings whose keys look like path specs (first key, a later key, nested)
         acts = [rng.choice([{"path": ["a"]}, {"b": 1, "path": ["a", 0]}, {"mode": "x", "path.length": ["a"], "z": None},
-                            {"a": {"b": 1, "path": [1]}}, [{"b": 2, "path": ["a"]}, 3]])]
+                            {"a": {"b": 1, "path": [1]}}, [{"b": 2, "path": ["a"]}, 3]] + gen.PATHLIKE_EXTRA)]
     acts = [strkey(a) for a in acts]
     akw = {k: strkey(v) for k, v in akw.items()}
     if fn in ("is_instance", "keys_is_instance"):
